@@ -181,6 +181,12 @@ func init() {
 			p := &Plan{Scenario: "W"}
 			p.Cfg = genConfig(r, pf)
 			hist := genHistory(r, pf, &p.Cfg)
+			for i := range hist {
+				// some checkpoints are large (extension lines are free-form): beyond 64 KiB and 128 KiB
+				if hist[i].K == "update" && hist[i].M == "" && r.Chance(0.06) {
+					hist[i].M, hist[i].MV = "pad_to", uint64(Pick(r, 65536, 70000, 131072, 140000)-r.IntN(200))
+				}
+			}
 			for _, o := range hist {
 				p.Ops = append(p.Ops, o)
 				k := r.Range(1, 3)
@@ -195,7 +201,22 @@ func init() {
 					p.Ops = append(p.Ops, Op{K: "getlist"})
 				}
 			}
-			if n%3 == 1 {
+			if n%5 == 4 {
+				// SQLite with faults inside the database driver: after a refused write the API must still serve the committed state
+				p.Cfg.Store, p.Cfg.Seam, p.Cfg.Clients, p.Cfg.Strategy = "sqlite", "driver", 1, "uniform"
+				for occ := 0; occ < 4*len(p.Ops); occ++ {
+					for _, call := range []string{"drv.Exec", "drv.Commit", "drv.Rollback"} {
+						if r.Chance(0.06) {
+							p.Faults = append(p.Faults, Fault{At: fmt.Sprintf("c0:%s#%d", call, occ), Kind: "fail"})
+						}
+					}
+				}
+				for i := range p.Ops {
+					if p.Ops[i].P == "stall" {
+						p.Ops[i].P = "drop"
+					}
+				}
+			} else if n%3 == 1 {
 				makeConcurrent(r, p)
 				for i := range p.Ops {
 					if p.Ops[i].P == "stall" {
